@@ -26,7 +26,7 @@ RULE = ("inputs: C01's directed corpus, frame URLs with every 1-2 token sequence
         "depends on the escape spelling, escaped tracking keys; option vectors platform_aware x strip_suffix x quoted (canonicalize_url with both quoted values on the inner side). "
         "A case is (url, option vector) for the composition laws and (url a, url b, vector) for collisions; non-trivial = C(u) != u, or an actual collision C(a)==C(b) / N(a)==N(b) with a != b; distinct = distinct tuple.")
 ASSUMPTIONS = ["same options on both sides; inputs that normalize_url returns unchanged because it cannot parse them are excluded (C05 owns them)", "the hierarchy is only checked in the stated direction"]
-FLOORS = ["N-of-C-checked", "F-of-C-checked", "canonical-collision-seen", "normalized-collision-seen", "sort-order-depends-on-spelling", "escaped-tracking-key", "escaped-uppercase-or-scheme-less-redirect", "opt-quoted", "opt-platform_aware",
+FLOORS = ["N-of-C-checked", "F-of-C-checked", "canonical-collision-seen", "normalized-collision-seen", "sort-order-depends-on-spelling", "escaped-tracking-key", "escaped-uppercase-or-scheme-less-redirect", "live-table-item", "multi-hop-after-non-recursive-call", "opt-quoted", "opt-platform_aware",
           "opt-strip_suffix", "bucket-by-log"]
 PROBE_FLOORS = ["qsl_sort_key", "should_strip_query_item"]
 
@@ -57,14 +57,24 @@ class Fns(object):
         from ural import canonicalize_url, normalize_url, fingerprint_url
         self.C, self.N, self.F = canonicalize_url, normalize_url, fingerprint_url
 
+    ctx = None
+
+    def _r(self, func, u, kw, r):
+        if self.ctx is not None and isinstance(r, str):
+            self.ctx.remember(func, [u], kw, r)
+        return r
+
     def c(self, u, v, quoted=None):
-        return call(self.C, u, quoted=v["quoted"] if quoted is None else quoted)
+        kw = {"quoted": v["quoted"] if quoted is None else quoted}
+        return self._r("ural.canonicalize_url:canonicalize_url", u, kw, call(self.C, u, **kw))
 
     def n(self, u, v):
-        return call(self.N, u, platform_aware=v["platform_aware"], quoted=v["quoted"])
+        kw = {"platform_aware": v["platform_aware"], "quoted": v["quoted"]}
+        return self._r("ural.normalize_url:normalize_url", u, kw, call(self.N, u, **kw))
 
     def f(self, u, v):
-        return call(self.F, u, platform_aware=v["platform_aware"], strip_suffix=v["strip_suffix"])
+        kw = {"platform_aware": v["platform_aware"], "strip_suffix": v["strip_suffix"]}
+        return self._r("ural.fingerprint_url:fingerprint_url", u, kw, call(self.F, u, **kw))
 
 
 def laws(ctx, fns, u, vectors, log):
@@ -162,6 +172,7 @@ ESC_TRACKING = [("http://a.com/x?%75tm_source=1&id=2", "http://a.com/x?id=2"), (
 
 def run(ctx):
     fns = Fns()
+    fns.ctx = ctx
     pr = Probes()
     pr.watch("ural.normalize_url:qsl_sort_key", want_args=False, lines=False)
     if ctx.tier == "thorough":
@@ -190,8 +201,31 @@ def run(ctx):
                 ctx.count("escaped-tracking-key")
                 laws(ctx, fns, a, V, log)
                 collisions(ctx, fns, a, b, "escaped-tracking", V)
+            # multi-hop redirect carriers, each first given to infer_redirection(recursive=False) as a pipeline might do: the laws
+            # must hold whatever was called before (a memo written by one mode and read by the other would show here)
+            from ural.infer_redirection import infer_redirection
+            for u in ("http://a.com/r?url=http%3A%2F%2Fb.org%2Fgo%3Fu%3Dhttps%253A%252F%252Fc.net%252Fz", "https://l.example.com/l.php?u=https%3A%2F%2Fr.example.net%2Fout%3Furl%3Dhttp%253A%252F%252Fd.org%252Fp%253Fq%253D1",
+                      "https://a.cdn.ampproject.org/c/s/b.org/?url=https%3A%2F%2Fc.net%2Fz", "http://a.com/?next=%2Fx%3Fnext%3D%252Fy"):
+                try:
+                    infer_redirection(u, recursive=False)
+                except Exception:
+                    pass
+                ctx.count("multi-hop-after-non-recursive-call")
+                laws(ctx, fns, u, V, log)
             for c in C01_DIRECTED:
                 laws(ctx, fns, G.render(c), V, log)
+            # every (key, value) of ural's live combo tables, as data: an item normalize_url ignores must be ignored by fingerprint_url too
+            import importlib
+            nu = importlib.import_module("ural.normalize_url")  # (the package attribute of that name is the function)
+            for table in ("IRRELEVANT_QUERY_COMBOS", "AMP_QUERY_COMBOS"):
+                for key, vals in sorted(getattr(nu, table, {}).items()):
+                    if callable(vals):
+                        continue
+                    for val in sorted(vals):
+                        a = "http://a.com/x?id=1&%s=%s" % (key, val)
+                        ctx.count("live-table-item")
+                        collisions(ctx, fns, a, "http://a.com/x?id=1", "live-table-item", V)
+                        collisions(ctx, fns, "http://a.com/x?id=1&%s=%s" % (key.upper(), val), "http://a.com/x?id=1", "live-table-item", V)
             ctx.sample("directed", {"pairs": SORT_SPELLING[:2] + ESC_TRACKING[:2]})
         # frames: token sequences in path and query
         from vf.gen.tokens import CORE
